@@ -42,6 +42,14 @@ def check(ctx, recs):
 def run(ctx):
     games = [(gen_games.FIG55, gen_games.FIG55_META)] + sc.corpus_games() + gen_games.pattern_games(3)
     games += gen_games.mixed_games(ctx.rng, 250 if ctx.quick else 4000, 3, 9, styles=("stopping", "exact", "stopping"))
+    # inclusion is claimed for ALL well-formed games: also make some player state a (non-absorbing) final state
+    extra = []
+    for g, m in games[8:]:
+        cand = [i for i, k in enumerate(g["players"]) if k != PR and i != 0 and len(g["transition_list"][i]) >= 2]
+        if cand and ctx.rng.random() < 0.35:
+            g2 = dict(g, final_states=list(g["final_states"]) + [ctx.rng.choice(cand)])
+            extra.append((g2, dict(m, style="stopping", guard="any")))
+    games += extra
     recs = sc.run_games(ctx, games, limit=10, tag="c05")
     sc.correspondence(ctx, recs, "cmp_final", "c05")
     check(ctx, recs)
